@@ -35,6 +35,7 @@ type Program struct {
 	Loaded   []string // import paths of /repo packages loaded from the working tree
 	built    map[string]bool
 	Warnings []string
+	taint    *taint // may-be-interior-reference analysis (taint.go), computed on first use
 }
 
 // SpecDB is the union of all parsed contract files.
@@ -43,6 +44,7 @@ type SpecDB struct {
 	Consts    map[string]string
 	Ghosts    map[string]string
 	GhostList []string
+	GhostPkg  map[string]string // ghost -> modelled package
 	Funcs     map[string]*spec.SpecFunc
 	FuncOrder []string
 	Axioms    []*spec.Clause
@@ -77,6 +79,10 @@ func (db *SpecDB) add(f *spec.File) error {
 			db.GhostList = append(db.GhostList, g.Name)
 		}
 		db.Ghosts[g.Name] = g.Sort
+		if db.GhostPkg == nil {
+			db.GhostPkg = map[string]string{}
+		}
+		db.GhostPkg[g.Name] = f.GhostPkg[g.Name]
 	}
 	for _, c := range f.Counters {
 		if c.OnOK {
@@ -499,6 +505,11 @@ func (p *Program) ExpandAutoRules(u *Universe) {
 			for _, e := range rule.Ensures {
 				if autoClauseApplies(e, f, c) {
 					c.Ensures = append(c.Ensures, e)
+				}
+			}
+			for _, e := range rule.Guarantees {
+				if autoClauseApplies(e, f, c) {
+					c.Guarantees = append(c.Guarantees, e)
 				}
 			}
 			for _, e := range rule.Invs {
